@@ -70,6 +70,11 @@ structure DState where
   sbusy : List Conn := []        -- stream loops stuck in `Process` (answering a client request, Send blocked): they take no push event
   sreqd : List Conn := []        -- connections that have made their one `busyreq`
   squiet : Bool := true          -- nothing accepted since the last sync (every stream loop is idle in its select)
+  sstopped : Bool := false       -- the server's stop channel is closed and `DiscoveryServer.Shutdown()` has run
+  sstopping : List Conn := []    -- `Connection.Stop()` called while the loop was inside a push (it returns after `done()`)
+  shammer : Bool := false        -- goroutines keep calling `ProxyUpdate` until the next sync
+  swinUpd : Nat := 0             -- producers' calls in this sync window ...
+  swinByp : Nat := 0             -- ... of which endpoints-only with EDS debounce off (pushed outside the debounce loop)
 
 /-- `nil`, `last`, or an index below `n`. -/
 def parseRef (n : Nat) (last : Option Ref) (t : String) : Option (Option Ref) :=
@@ -230,6 +235,7 @@ def showViewCanon (v : View) : String :=
 
 inductive TEv
   | send (id : Nat) (t : Nat) | push (val : String) (t : Nat) | ret | eds (val : String) | sent (n : Nat)
+  | note   -- `N|...`: a remark of the harness for the check (how a flood went), not an event
 
 def parseTEv (tok : String) : Option TEv :=
   match tok.splitOn "|" with
@@ -240,6 +246,7 @@ def parseTEv (tok : String) : Option TEv :=
   | ["X"] => some .ret
   | ["E", v] => some (.eds v)
   | ["U", n] => (n.toNat?).map .sent
+  | ["N", _] => some .note
   | _ => none
 
 def stepE (o : DOpts) (s : DB) (e : Ev) (what : String) : Except String DB :=
@@ -505,6 +512,9 @@ def srvSettle : Nat → DState → DState
     | some s' => srvSettle n s'
     | none => s
 
+/-- With EDS debounce off two `Push` calls can overlap; which snapshot a connection gets last is then a race. -/
+def srvOverlap (s : DState) : Bool := s.swinByp > 0 && s.swinUpd > 1
+
 /-- What the deliveries to `c` say: "c:<key>" for every key, "f:<key>" for a key of a forced update that
     arrived in a forced request; `cur` = the last delivery carried the newest snapshot. -/
 def srvSeen (s : DState) (c : Conn) : String :=
@@ -514,7 +524,7 @@ def srvSeen (s : DState) (c : Conn) : String :=
     | .cfg k => "c:" ++ k | .adr k => "a:" ++ k | .wp k => "w:" ++ k | .forced => "forced"))
   let fs := ds.flatMap (fun e => if e.2.2.contains .forced then
       ((keysOf e.2.2).filter (fun k => s.sforced.contains k)).map (fun k => "f:" ++ k) else [])
-  let cur := match ds.getLast? with
+  let cur := if srvOverlap s then "*" else match ds.getLast? with
     | none => "-"
     | some e => boolTok (e.2.1 == some s.pipe.version)
   s!"{encSet (cs ++ fs)};cur={cur}"
@@ -522,64 +532,132 @@ def srvSeen (s : DState) (c : Conn) : String :=
 def srvSummary (s : DState) : String :=
   if s.sn == 0 then "-" else
   " ".intercalate ((List.range s.sn).map (fun c =>
-    if s.sdead.contains c then s!"{c}=dead" else if s.sdown then s!"{c}=*" else s!"{c}={srvSeen s c}"))
+    if s.sdown then s!"{c}=*" else if s.sdead.contains c then s!"{c}=dead" else s!"{c}={srvSeen s c}"))
 
 def srvStuck (s : DState) : Bool :=
-  !s.sheld.isEmpty || s.sblocked.any (fun c => !s.sdead.contains c) || !s.sbusy.isEmpty
+  !s.sheld.isEmpty || !s.sblocked.isEmpty || !s.sbusy.isEmpty
 
-def srvRelease (s : DState) : DState := { s with sheld := [] }
+/-- The loop of `c` returns on its stop channel (it holds no event). -/
+def srvLoopReturn (s : DState) (c : Conn) : DState :=
+  { s with pipe := pev (pev s.pipe (.snd (.loopReturn c))) (.unregister c) }
+
+/-- The gate of a connection parked in its initialisation opens; with a failing transport the answer to its first
+    request fails and the stream ends. -/
+def srvRelease1 (s : DState) (c : Conn) : DState :=
+  let s1 := { s with sheld := s.sheld.filter (· ≠ c), squiet := false }
+  if s1.sfailing.contains c && !s1.sdead.contains c then srvKill s1 c else s1
+
+def srvRelease (s : DState) : DState := s.sheld.foldl srvRelease1 s
+
 
 def srvUnblock (s : DState) (c : Conn) : DState :=
   let s1 := { s with sblocked := s.sblocked.filter (· ≠ c), sbusy := s.sbusy.filter (· ≠ c) }
-  if hasDelivered s1.pipe c then
-    let s2 := { s1 with pipe := pev s1.pipe (.snd (.pushDone c)) }
-    if s2.sfailing.contains c then srvKill s2 c else s2
-  else s1
+  let s3 :=
+    if hasDelivered s1.pipe c then
+      let s2 := { s1 with pipe := pev s1.pipe (.snd (.pushDone c)) }
+      if s2.sfailing.contains c then srvKill s2 c else s2
+    else s1
+  if s3.sstopping.contains c then srvLoopReturn { s3 with sstopping := s3.sstopping.filter (· ≠ c) } c else s3
 
 def srvUpdate (s : DState) (forced : Bool) (ks as ws : List String) : DState × String :=
-  if s.sended then (s, "bad-op") else
+  if s.sended || s.sstopped then (s, "bad-op") else
   let opt := fun (l : List String) => if l.isEmpty then none else some l
   let v : View := { configs := opt ks, addrs := opt as, wps := opt ws, forced := forced, reason := some [("config", 1)] }
   let s1 := if s.pipe.chan.length < chanCap then s else srvSettle 1000 s   -- ConfigUpdate blocks while the channel is full
   ({ s1 with pipe := pev s1.pipe (.configUpdate v), supd := s1.supd + 1, squiet := false
+             swinUpd := s1.swinUpd + 1
+             swinByp := if !s1.pipe.opts.eds && onlyEndpoints v then s1.swinByp + 1 else s1.swinByp
              sforced := if forced then s1.sforced ++ ks else s1.sforced }, "ok")
+
+def srvConn (s : DState) (op i kind : String) : DState × String :=
+  if (op != "conn" && op != "connheld") || (kind != "sotw" && kind != "delta") || s.sended || s.sstopped then (s, "bad-op") else
+  match i.toNat? with
+  | none => (s, "bad-op")
+  | some i =>
+    if i != s.sn then (s, "bad-op") else
+    ({ s with pipe := pev s.pipe (.register i), sn := s.sn + 1, snode := s.snode ++ [i]
+              sheld := if op == "connheld" then s.sheld ++ [i] else s.sheld }, "ok")
 
 def stepServer (s : DState) (toks : List String) : DState × String :=
   match toks with
   | ["update", f, ks] => srvUpdate s (tokBool f) (decList ks) [] []
   | ["update", f, ks, as, ws] => srvUpdate s (tokBool f) (decList ks) (decList as) (decList ws)
   | ["updatepar", f, ks] =>
-    if s.sended then (s, "bad-op") else
+    if s.sended || s.sstopped then (s, "bad-op") else
     ((decList ks).foldl (fun st k => (srvUpdate st (tokBool f) [k] [] []).1) s, "ok")
   | ["proxyupdate", i] =>
     match i.toNat? with
     | some i =>
-      if i >= s.sn || s.sdead.contains i || s.sheld.contains i || s.sended ||
-          ((List.range s.sn).any (fun j => j != i && s.snode[j]? == s.snode[i]?)) then (s, "bad-op")
-      else ({ s with pipe := pev s.pipe (.proxyUpdate i s.pipe.version), squiet := false }, "ok")
+      if i >= s.sn || s.sdead.contains i || s.sheld.contains i || s.sended || s.sstopped then (s, "bad-op")
+      else
+        -- every initialised, live connection registered for the address (= presenting the same node) gets the request
+        let same := (List.range s.sn).filter (fun j => s.snode[j]? == s.snode[i]? && !s.sdead.contains j && !s.sheld.contains j)
+        ({ s with pipe := same.foldl (fun p j => pev p (.proxyUpdate j p.version)) s.pipe, squiet := false
+                  swinUpd := s.swinUpd + 1 }, "ok")
+    | none => (s, "bad-op")
+  | ["puhammer", n] =>
+    -- goroutines keep calling `ProxyUpdate` for every live connection until the next sync: as facts, one forced
+    -- request each (the later ones carry the then newest push context: the guard of `proxyUpdate`)
+    match n.toNat? with
+    | some n =>
+      if n < 1 || n > 64 || s.shammer || s.sended || s.sstopped || s.sdown then (s, "bad-op")
+      else
+        let live := (List.range s.sn).filter (fun j => !s.sdead.contains j && !s.sheld.contains j)
+        ({ s with pipe := live.foldl (fun p j => pev p (.proxyUpdate j p.version)) s.pipe, squiet := false
+                  swinUpd := s.swinUpd + 1, shammer := true }, "ok")
     | none => (s, "bad-op")
   | ["pushall"] =>
     -- the debug trigger `AdsPushAll(s)`: the third producer; a forced request with the global push context for every
     -- registered connection (one `Enqueue` each, as `StartPush` does)
-    if s.sended then (s, "bad-op") else
-    ({ s with pipe := s.pipe.conns.foldl (fun p c => pev p (.proxyUpdate c p.version)) s.pipe, squiet := false }, "ok")
+    if s.sended || s.sstopped then (s, "bad-op") else
+    ({ s with pipe := s.pipe.conns.foldl (fun p c => pev p (.proxyUpdate c p.version)) s.pipe, squiet := false
+              swinUpd := s.swinUpd + 1 }, "ok")
   | ["stopconn", i] =>
     match i.toNat? with
     | some i =>
       -- a loop stuck in `Process` (busy) holds no push event: it can be told to stop; one stuck in a push cannot here
-      if i >= s.sn || s.sdead.contains i || s.sheld.contains i || (s.sblocked.contains i && !s.sbusy.contains i) || s.sended then
-        (s, "bad-op")
-      else
-        let p1 := pev (pev s.pipe (.snd (.loopReturn i))) (.unregister i)
-        ({ s with pipe := p1, sdead := s.sdead ++ [i] }, "ok")
+      -- also for a loop parked in its initialisation or stuck in Send: it returns once it is let go
+      if i >= s.sn || s.sdead.contains i || s.sended then (s, "bad-op")
+      else if hasDelivered s.pipe i then ({ s with sdead := s.sdead ++ [i], sstopping := s.sstopping ++ [i] }, "ok")
+      else (srvLoopReturn { s with sdead := s.sdead ++ [i] } i, "ok")
     | none => (s, "bad-op")
+  | ["reqnew", i] =>
+    -- one more request that needs an answer; with a failing transport `Process` returns the error
+    match i.toNat? with
+    | some i =>
+      if i >= s.sn || s.sdead.contains i || s.sheld.contains i || s.sblocked.contains i || s.sbusy.contains i ||
+          s.sreqd.contains i || s.sended then (s, "bad-op")
+      else
+        let s1 := { s with sreqd := s.sreqd ++ [i] }
+        (if s1.sfailing.contains i then srvKill s1 i else s1, "ok")
+    | none => (s, "bad-op")
+  | ["recverr", i] =>
+    -- `Recv` fails with an unexpected error: the loop returns it (`errorChan`), the stream ends
+    match i.toNat? with
+    | some i =>
+      if i >= s.sn || s.sdead.contains i || s.sheld.contains i || s.sblocked.contains i || s.sbusy.contains i || s.sended then
+        (s, "bad-op")
+      else (srvKill s i, "ok")
+    | none => (s, "bad-op")
+  | ["stopserver"] =>
+    -- the stop channel closes (every parked push goroutine takes its stop exit, the sender loop leaves) and
+    -- `DiscoveryServer.Shutdown()` shuts the queue down; the stream loops stay
+    if s.sstopped || s.sended then (s, "bad-op")
+    else ({ s with pipe := pev (pev s.pipe (.snd .stop)) (.snd .shut), sdown := true, sstopped := true, shammer := false }, "ok")
+  | ["connas", i, j, kind] =>
+    -- a second registration for the address of connection `i`, which stays as it is
+    match i.toNat?, j.toNat? with
+    | some i, some j =>
+      if i >= s.sn || s.sended || s.sstopped || j != s.sn || (kind != "sotw" && kind != "delta") then (s, "bad-op")
+      else ({ s with pipe := pev s.pipe (.register j), sn := s.sn + 1, snode := s.snode ++ [s.snode.getD i i] }, "ok")
+    | _, _ => (s, "bad-op")
   | ["busyreq", i] =>
     -- the client stops reading and asks for one more resource type: the stream loop sits in `Process` (blocked in
     -- Send) and takes no push event until `unblock`; only right after a sync (the loop is idle in its select)
     match i.toNat? with
     | some i =>
       if i >= s.sn || s.sdead.contains i || s.sheld.contains i || s.sblocked.contains i || s.sfailing.contains i ||
-          s.sreqd.contains i || !s.squiet || s.sdown || s.sended then (s, "bad-op")
+          s.sreqd.contains i || !s.squiet || s.sdown || s.sended || s.sstopped then (s, "bad-op")
       else ({ s with sblocked := s.sblocked ++ [i], sbusy := s.sbusy ++ [i], sreqd := s.sreqd ++ [i] }, "ok")
     | none => (s, "bad-op")
   | ["req", i] =>
@@ -589,7 +667,7 @@ def stepServer (s : DState) (toks : List String) : DState × String :=
   | ["reconn", i, j, kind] =>
     match i.toNat?, j.toNat? with
     | some i, some j =>
-      if i >= s.sn || s.sdead.contains i || !s.sheld.isEmpty || s.sended || j != s.sn || (kind != "sotw" && kind != "delta") then
+      if i >= s.sn || s.sdead.contains i || s.sended || s.sstopped || j != s.sn || (kind != "sotw" && kind != "delta") then
         (s, "bad-op")
       else
         let s1 := srvKill s i
@@ -597,22 +675,16 @@ def stepServer (s : DState) (toks : List String) : DState × String :=
     | _, _ => (s, "bad-op")
   | ["shutdown"] =>
     if s.sdown || srvStuck s || s.sended then (s, "bad-op")
-    else ({ s with pipe := pev s.pipe (.snd .shut), sdown := true }, "ok")
-  | [op, i, kind] =>
-    if (op != "conn" && op != "connheld") || (kind != "sotw" && kind != "delta") || s.sended then (s, "bad-op") else
-    match i.toNat? with
-    | none => (s, "bad-op")
-    | some i =>
-      if i != s.sn || (op == "connheld" && !s.sheld.isEmpty) then (s, "bad-op") else
-      ({ s with pipe := pev s.pipe (.register i), sn := s.sn + 1, snode := s.snode ++ [i]
-                sheld := if op == "connheld" then [i] else s.sheld }, "ok")
+    else ({ s with pipe := pev s.pipe (.snd .shut), sdown := true, shammer := false }, "ok")
+  | [op, i, kind] => srvConn s op i kind
+  | [op, i, kind, "router"] => srvConn s op i kind
   | ["release", i] =>
     match i.toNat? with
-    | some i => if s.sheld == [i] then ({ srvRelease s with squiet := false }, "ok") else (s, "bad-op")
+    | some i => if s.sheld.contains i then (srvRelease1 s i, "ok") else (s, "bad-op")
     | none => (s, "bad-op")
   | ["failsend", i] =>
     match i.toNat? with
-    | some i => if i < s.sn && !s.sheld.contains i && !s.sbusy.contains i then ({ s with sfailing := s.sfailing ++ [i] }, "ok") else (s, "bad-op")
+    | some i => if i < s.sn && !s.sbusy.contains i then ({ s with sfailing := s.sfailing ++ [i] }, "ok") else (s, "bad-op")
     | none => (s, "bad-op")
   | ["blocksend", i] =>
     match i.toNat? with
@@ -628,14 +700,14 @@ def stepServer (s : DState) (toks : List String) : DState × String :=
     | none => (s, "bad-op")
   | ["pushed"] => (s, "ok")
   | ["sync"] =>
-    if srvStuck s || s.sended then (s, "bad-op") else
+    if srvStuck s || s.sended || s.sstopped then (s, "bad-op") else
     let s1 := srvSettle 100000 s
     -- a new window: from here on the logs speak about what is accepted / delivered from now on (`mark`)
-    ({ s1 with pipe := pev s1.pipe .mark, sforced := [], squiet := true }, srvSummary s1)
+    ({ s1 with pipe := pev s1.pipe .mark, sforced := [], squiet := true, shammer := false, swinUpd := 0, swinByp := 0 }, srvSummary s1)
   | ["end"] =>
     if s.sended then (s, "bad-op") else
     let s0 := srvRelease s
-    let s1 := (s0.sblocked.filter (fun c => !s0.sdead.contains c)).foldl srvUnblock s0
+    let s1 := s0.sblocked.foldl srvUnblock s0
     let s2 := srvSettle 100000 { s1 with sblocked := [], sbusy := [] }
     let held := ((List.range s2.sn).filter (fun c => (s2.pipe.snd.q.processing c).isSome)).length
     ({ s2 with sended := true }, s!"{srvSummary s2} held={held} verdict=OK")
